@@ -74,6 +74,9 @@ def errInvalidQName : Err := "lib:ProvExceptionInvalidQualifiedName"
 def errIdRequired : Err := "lib:ProvElementIdentifierRequired"
 def errValue : Err := "crash:ValueError"
 def errType : Err := "crash:TypeError"
+def errKey : Err := "crash:KeyError"
+def errIndex : Err := "crash:IndexError"
+def errAttr : Err := "crash:AttributeError"
 
 /-- One record: `_attributes` is an insertion-ordered dict (keys by URI) of sets (values by `keyEq`). -/
 structure Record where
